@@ -646,7 +646,7 @@ def opsOf (ls : List MLayer) (i : Nat) : LayerOp := (ls.map (·.op)).getD i .inp
 
   The rewiring loop of `convert_to_folded_model` calls every surviving layer again on the tensors of
   its parents.  A layer with several inputs (Add, Subtract, Concatenate, Dot, …) needs them in the
-  order of its own `layer.input`.  Since fix ff4bdc9 the code records, before any layer is called
+  order of its own `layer.input`.  Since fix 41c6274 the code records, before any layer is called
   again, the position of every edge's tensor in the input list of its consumer and feeds the inputs
   in that order: `rewiredIns`.  Before the fix the order was the one of `graph.predecessors()`, i.e.
   the order in which the edges were added to the networkx graph — at best the layer order for the
@@ -711,7 +711,7 @@ def OGraph.val (rs : Rat → Rat) (x : T) (g : OGraph) (k : Nat) : Option T := g
 def redirect (g : Graph) (p : Nat) : Nat :=
   if (bnToDelete g).contains p then (g.getD p ⟨.other, []⟩).preds.getD 0 p else p
 
-/-- the inputs of a layer of the returned model, REPAIRED code (fix ff4bdc9): every input keeps its
+/-- the inputs of a layer of the returned model, REPAIRED code (fix 41c6274): every input keeps its
     position in the consumer's input list -/
 def rewiredIns (g : Graph) (ins : List Nat) : List Nat := ins.map (redirect g)
 
